@@ -7,6 +7,7 @@ import (
 	"github.com/postalsys/muti-metroo/internal/icmp"
 	"net"
 	"sort"
+	"time"
 
 	"github.com/postalsys/muti-metroo/internal/exit"
 	"github.com/postalsys/muti-metroo/internal/forward"
@@ -192,4 +193,27 @@ func (a *Agent) VerifUDPIngressStreams() (byLocal []uint64, byBase []uint64) {
 	sort.Slice(byLocal, func(i, j int) bool { return byLocal[i] < byLocal[j] })
 	sort.Slice(byBase, func(i, j int) bool { return byBase[i] < byBase[j] })
 	return byLocal, byBase
+}
+
+// VerifBackdateForwardedControl moves the creation time of every
+// forwardedControl entry d into the past (so that the stale-entry clean-up of
+// routeAdvertiseLoop sees them as older than its 60 s limit).
+func (a *Agent) VerifBackdateForwardedControl(d time.Duration) {
+	a.controlMu.Lock()
+	defer a.controlMu.Unlock()
+	for _, req := range a.forwardedControl {
+		req.CreatedAt = req.CreatedAt.Add(-d)
+	}
+}
+
+// VerifRunAdvertiseLoop starts the agent's real routeAdvertiseLoop (interval
+// from cfg.Routing.AdvertiseInterval); the returned function stops it by
+// closing stopCh and waits for it to return.  For throw-away agents only.
+func (a *Agent) VerifRunAdvertiseLoop() (stop func()) {
+	a.wg.Add(1)
+	go a.routeAdvertiseLoop()
+	return func() {
+		a.stopOnce.Do(func() { close(a.stopCh) })
+		a.wg.Wait()
+	}
 }
